@@ -420,7 +420,7 @@ def task_names_alpha(args):
     names = list(strings(NAME_ALPHA, maxlen))[lo:hi]
     for nm in names:
         parts = [fld(nm, "v"), fil(nm, b"w", filename=nm, ctype="text/plain")]
-        pipes = PIPES_ALL if heavy else ("sansio",)
+        pipes = PIPES_ALL + ("client_post",) if heavy else ("sansio",)
         check_parts(L, parts, b"b", pipes)
     return L.pack()
 
@@ -483,6 +483,8 @@ def task_lists(args):
         pipes = ("sansio",)
         if heavy:
             pipes = ("sansio", "encode_parser", "encode_environ", "environ_multipart")
+            if nparts <= 2:
+                pipes += ("client_post",)
         check_parts(L, parts, b"b", pipes, args=[["q", "1"], ["q", ""]] if heavy else None)
     return L.pack()
 
@@ -664,8 +666,11 @@ def _tasks(tier, seed):
     tasks.append(("task_boundaries", (tier,)))
     for lo in range(0, top, 0x2000):
         tasks.append(("task_text_values", (lo, lo + 0x2000, True)))
-    for i in range(32 if th else 8):
-        tasks.append(("task_binary", (seed, i, 150 if th else 25, 300 if th else 40)))
+    # all byte values (deterministic); seeded random part lists only in the thorough tier
+    tasks.append(("task_binary", (seed, 0, 150 if th else 0, 300)))
+    if th:
+        for i in range(1, 32):
+            tasks.append(("task_binary", (seed, i, 150, 300)))
     nstr = len(list(strings(URL_ALPHA, 2)))
     for lo in range(0, nstr, 14):
         tasks.append(("task_urlencoded_matrix", (lo, lo + 14)))
@@ -693,21 +698,22 @@ def _domain(tier):
         "parts from {field,file} x {a, 'e-acute;'} x 8 values (sansio; <=%d parts through encode_multipart and "
         "EnvironBuilder with repeated query args); 9 boundaries (length 1, 2, 8, 10 with metacharacters, 70, '-', "
         "'--', 'x-') x 18 near-copies of the boundary as value/content in 3 list shapes, empty form, empty "
-        "name/filename/content; all code points %s as text values in blocks of 64; all 256 byte values and %d "
-        "seeded random part lists (random bytes <=%d, CR/LF/dash/boundary atoms, 5 content types, through "
-        "Client.post too); part charsets; urlencoded: every key x value over strings of length<=2 from "
+        "name/filename/content; all code points %s as text values in blocks of 64; all 256 byte values%s; "
+        "Client.post for the <=2-part lists and the length<=2 names; part charsets; urlencoded: every key x value over strings of length<=2 from "
         "{a, SP, '+', '&', '=', '%%', ';', '#', e-acute, U+1F600, LF, NUL, '/', '?'} (as form and as query args), all pair "
         "lists of length<=3 over 3 keys (incl. empty) x 3 values (incl. empty), every code point %s as key and as "
         "value.%s Payloads that themselves contain a delimiter line of the boundary in use are skipped and counted."
         % ("U+0000..U+10FFFF" if th else "of the BMP (+ 4 blocks of astral planes)", 8 if th else 6, 5 if th else 4,
-           6 if th else 4, 3 if th else 2, "U+0000..U+10FFFF" if th else "of the BMP", 32 * 150 if th else 8 * 25,
-           300 if th else 40, "U+0000..U+10FFFF" if th else "of the BMP",
+           6 if th else 4, 3 if th else 2, "U+0000..U+10FFFF" if th else "of the BMP",
+           " and 4800 seeded random part lists (random bytes <=300, CR/LF/dash/boundary atoms, 5 content types)" if th
+           else "", "U+0000..U+10FFFF" if th else "of the BMP",
            " Uploads of 64 KiB..600 kB (x, CRLF, CR, LF runs, near-boundary lines, text lines, random bytes)." if th else ""))
 
 
 def run(tier: str, seed: int, reg=None) -> dict:
     common.assert_tree()
     col = common.Collector(RULE, _domain(tier))
+    col.exhaustive = tier != "thorough"  # quick: pure enumeration; thorough adds seeded random part lists
     tasks = _tasks(tier, seed)
     fails = {}
     skipped = 0
